@@ -353,7 +353,9 @@ async fn restart_and_replay_once(script: &Script, expect_some: bool) -> Result<(
 pub struct C15Prop;
 pub static C15: C15Prop = C15Prop;
 
-const POINTS: [&str; 3] = ["forge.after_commit", "stream.after_pipeline", "acked.after_set_cursor"];
+/// Armed crash points. `store.after_commit` (hook H7) sits inside `SqliteStore::commit` and so
+/// covers the instant after *every* committed transaction, wherever the code under test commits.
+const POINTS: [&str; 4] = ["store.after_commit", "forge.after_commit", "stream.after_pipeline", "acked.after_set_cursor"];
 
 impl Property for C15Prop {
     fn id(&self) -> &'static str {
@@ -443,7 +445,8 @@ impl Property for C15Prop {
             }
         } else {
             for p in POINTS {
-                for n in 1..=(n_steps as u64 + 2) {
+                let occurrences = if p == "store.after_commit" { 2 * n_steps as u64 + 2 } else { n_steps as u64 + 2 };
+                for n in 1..=occurrences {
                     positions.push((n_steps, Some((p.to_string(), n))));
                 }
             }
@@ -627,6 +630,7 @@ impl Property for C15Prop {
         }
         for p in reached {
             match p.as_str() {
+                "store.after_commit" => ctx::probe("crash_after_store_commit"),
                 "forge.after_commit" => ctx::probe("crash_after_forge_commit"),
                 "stream.after_pipeline" => ctx::probe("crash_after_pipeline"),
                 _ => ctx::probe("crash_after_set_cursor"),
@@ -635,7 +639,7 @@ impl Property for C15Prop {
         let _ = signing_key(0);
     }
     fn expected_probes(&self) -> Vec<&'static str> {
-        vec!["crash_after_forge_commit", "crash_after_pipeline", "crash_after_set_cursor"]
+        vec!["crash_after_store_commit", "crash_after_forge_commit", "crash_after_pipeline", "crash_after_set_cursor"]
     }
 }
 
